@@ -78,13 +78,13 @@ package arp
 //@ pred arpchain(d []gopacket.LayerType) = len(d) == 2 && d[0] == layers.LayerTypeEthernet && d[1] == layers.LayerTypeARP
 //@ func (*ScanMethod).ProcessPacketData
 //@   props C06 C03 C11 C16 C14 C20
-//@   observe DecodeLayers, String, Put
+//@   observe DecodeLayers, String, Put, maplookup
 //@   entry row undecodable: [call DecodeLayers(s.parser, data, _) as (e)] when e != nil && ret == e -> exit
 //@   entry row otherframe:  [call DecodeLayers(s.parser, data, _) as (e)] when e == nil && !(arpchain(s.rcvDecoded) && len(s.rcvARP.SourceHwAddress) == 6 && len(s.rcvARP.SourceProtAddress) == 4) && ret == nil -> exit
-//@   entry row record:      [call DecodeLayers(s.parser, data, _) as (e) ; call String(bind_pa) as (ips) ; call String(bind_ha) as (macs) ; call Put(s.results, bind_x)]
+//@   entry row record:      [call DecodeLayers(s.parser, data, _) as (e) ; call maplookup(macs.ValidMACPrefixMap, _) as (vendor, known) ; call String(bind_pa) as (ips) ; call String(bind_ha) as (macs) ; call Put(s.results, bind_x)]
 //@                             when e == nil && arpchain(s.rcvDecoded) && len(s.rcvARP.SourceHwAddress) == 6 && len(s.rcvARP.SourceProtAddress) == 4 && ret == nil
 //@                               && pa == s.rcvARP.SourceProtAddress && ha == s.rcvARP.SourceHwAddress
-//@                               && isptr(x, ScanResult) && fresh(asptr(x, ScanResult)) && asptr(x, ScanResult).IP == ips && asptr(x, ScanResult).MAC == macs -> exit
+//@                               && isptr(x, ScanResult) && fresh(asptr(x, ScanResult)) && asptr(x, ScanResult).IP == ips && asptr(x, ScanResult).MAC == macs && asptr(x, ScanResult).Vendor == vendor -> exit
 
 // C03: capture filter text: "arp", or "arp src net " + subnet
 //@ func BPFFilter
